@@ -45,6 +45,9 @@ DECLDOCS = ['<?xml version="1.0" encoding="UTF-8" standalone="yes"?><!DOCTYPE r 
             '<!DOCTYPE p:r PUBLIC "-//X//EN" "x.dtd" [<!ATTLIST p:r a CDATA #IMPLIED xmlns:p CDATA "urn:u1" p:b (u|v) "u"><!ELEMENT p:r ANY>]>'
             '<p:r><a/><b>t</b></p:r>',
             "<!DOCTYPE r SYSTEM 's.dtd' [<!ENTITY q 'say \"hi\"'><!ENTITY s \"it's\"><!ATTLIST r d CDATA '&q;'>]><r><a>&q;&s;</a><b/></r>"]
+DECLDOCS += ['<?xml version="1.0" standalone="no"?><r><a>t</a><b/></r>',
+             '<?xml version="1.1" encoding="UTF-16" standalone="no"?><!DOCTYPE r [<!ENTITY lt2 "<b>bold</b>">]><r><a>t</a><b/></r>',
+             "<?xml version='1.0' encoding='ISO-8859-1'?><r><a>t</a><b/></r>"]
 BADDOCS = ["", "<a>", "<a></b>", "text", "<a/><b/>", "<a/>trail", "<a x='1' x='2'/>", "<a>&nosuch;</a>", "﻿<a/>", "<a>\x01</a>"]
 
 
